@@ -372,3 +372,7 @@ MT = "tangermeme/match.py"
 case("C17", "signal-filter-truthiness", "VIOLATION", [(MT, "\tif bigwig is not None:\n\t\tassert(in_window >= out_window)", "\tif bigwig is not None and signal_threshold:\n\t\tassert(in_window >= out_window)")], "SIGNAL", note="seed C17-1: threshold 0.0 is falsy")
 case("C20", "baseline-loss-unmasked", "VIOLATION", [("tangermeme/design.py", "loss_prev = loss(y[:, mask], y_orig[:, mask]).mean()", "loss_prev = loss(y, y_orig).mean()")], "R-SIB", note="seed C20-1")
 case("C15", "N-test-by-tie-count", "VIOLATION", [("tangermeme/utils.py", "n_inds = numpy.where(pwm.sum(axis=0)==0)[0]", "n_inds = numpy.where((pwm == pwm.max(axis=0, keepdims=True)).sum(axis=0) == len(alphabet))[0]")], "DECODE", note="seed C15-1")
+prefix("C13", "D21-prefix-tsums-extent", "tangermeme/tools/tomtom.py", "88eec51", "R-BOUNDS", "tools.tomtom._tomtom")
+case("C13", "scratch-B-one-row-short", "VIOLATION", [("tangermeme/tools/tomtom.py", "_B = numpy.empty((n, T_max+1, n_len), dtype='float64')", "_B = numpy.empty((n, T_max, n_len), dtype='float64')")], "R-BOUNDS", note="mutation sweep: allocation one row short, B[t_max] out of bounds")
+case("C13", "scratch-f-one-bin-short", "VIOLATION", [("tangermeme/tools/tomtom.py", "_f = numpy.empty((n, Q_max, n_score_bins+1), dtype='float64')", "_f = numpy.empty((n, Q_max, n_score_bins), dtype='float64')")], "R-BOUNDS")
+case("C13", "tsums-extent-equiv", "HOLDS", [("tangermeme/tools/tomtom.py", "\tmax_nt = max(T_lens)\n\tt_sums = numpy.empty(max_nt+nq-1, dtype='int16')", "\tlongest = max(T_lens)\n\tt_sums = numpy.empty(nq + longest, dtype='int16')")], note="larger scratch under another name")
